@@ -285,6 +285,10 @@ func init() {
 					}
 				}
 			}
+			// literals whose members arrange constants and the identity with commas, pipes and parentheses in every way
+			for _, src := range gen.LiteralShapePrograms(c.N(6, 1)) {
+				kC04.Do(c, c04Case{Src: src, Inputs: fixed[:4]})
+			}
 			// control-flow joins followed by fusable instructions, in multi-slot consumers
 			var joinIn, pbIn []run.TV
 			for _, v := range gen.JoinInputs() {
